@@ -70,7 +70,7 @@ func anchorFuncs(c *an.Ctx) []*an.Func {
 }
 
 // AnchorExplanation is appended to every property's coverage statement.
-const AnchorExplanation = " In addition, over every function and template of the files the property is anchored in (properties.jsonl anchors.files), the property-independent deviance lints are decided (rule ids ….L0–.L8): L0 each lint fires on a positive example embedded in the checker; L1 control-flow and data-flow slips (state leaking between loop iterations, abandoned loops, swapped same-typed arguments, merge guard on another field, guard on another variable, raw pair used after normalisation, loop-invariant effect calls, unguarded map stores, duplicated switch arms, self-searches, lazy-initialisation blocks that swallow an operation, shallow copies where a duplicator exists, half-visited maps, errors swallowed as success, an identifier left unrenamed between two parallel field families of one literal, an index of a re-sliced range used as an index of the whole, sibling accumulators fed in different orders, a verbatim-repeated block guarded by a deviating constant, a looked-up element bypassed in favour of its container, element stores through a copier that shares the field with its argument, a map entry consumed (read, then deleted) by a callee that a loop calls with the same map on every iteration); L2 sibling-field parity (headers/cookies, headers/trailers); L3 attribute-name vs element-name roles in WalkMappedAttr callbacks; L4 identical json/yaml struct tags; L5 template call arguments vs callee parameter names; L6 copy constructors set every field; L7 .Required tested before .DefaultValue in template chains; L8 two-variable template ranges use their element. A lint hit is a construct that does not exist on the reference tree (zero hits over the whole module); it shows a slip in code the property depends on, not that the property's behaviour was observed to fail."
+const AnchorExplanation = " In addition, over every function and template of the files the property is anchored in (properties.jsonl anchors.files), the property-independent deviance lints are decided (rule ids ….L0–.L8): L0 each lint fires on a positive example embedded in the checker; L1 control-flow and data-flow slips (state leaking between loop iterations, abandoned loops, swapped same-typed arguments, merge guard on another field, guard on another variable, raw pair used after normalisation, loop-invariant effect calls, unguarded map stores, duplicated switch arms, self-searches, lazy-initialisation blocks that swallow an operation, shallow copies where a duplicator exists, half-visited maps, errors swallowed as success, an identifier left unrenamed between two parallel field families of one literal, an index of a re-sliced range used as an index of the whole, sibling accumulators fed in different orders, a verbatim-repeated block guarded by a deviating constant, a looked-up element bypassed in favour of its container, element stores through a copier that shares the field with its argument, a map entry consumed (read, then deleted) by a callee that a loop calls with the same map on every iteration, a method of a response-side type reading the request-side twin of a field, values swapped in an unkeyed struct literal); L2 sibling-field parity (headers/cookies, headers/trailers); L3 attribute-name vs element-name roles in WalkMappedAttr callbacks; L4 identical json/yaml struct tags; L5 template call arguments vs callee parameter names; L6 copy constructors set every field; L7 .Required tested before .DefaultValue in template chains; L8 two-variable template ranges use their element. A lint hit is a construct that does not exist on the reference tree (zero hits over the whole module); it shows a slip in code the property depends on, not that the property's behaviour was observed to fail."
 
 // AnchorRules runs the property-independent deviance lints over the code the
 // property is anchored in. Each lint has zero hits on the reference tree over
